@@ -183,11 +183,14 @@ func (s *Session) Close() {
 		case <-time.After(5 * time.Second):
 		}
 	}
-	if s.lisRet != nil && !s.M.Poll {
-		// stopping a poll-mode server takes about a second (netpoll shutdown): not waited for
+	if s.lisRet != nil {
+		// Also for poll-mode servers (about a second, netpoll shutdown): a poll server that is still
+		// winding down keeps file descriptors registered, and a descriptor number reused by the next
+		// case's connection would be served by the old server (observed: requests executed by the
+		// previous case's server).
 		select {
 		case <-s.lisRet:
-		case <-time.After(5 * time.Second):
+		case <-time.After(8 * time.Second):
 		}
 	}
 	if s.M.Link == "unix" {
